@@ -84,6 +84,7 @@ type wOp struct {
 	ECOK    bool     `json:"ecok,omitempty"`  // did:key: the bytes after the codec decompress to a point of the curve the codec names (library verdict)
 	RSA     string   `json:"rsa,omitempty"`   // did:key: PKCS#1 verdict on the bytes after the codec: parse | small | ok
 	Sib     []wSib   `json:"sib,omitempty"`   // did:web: the DIDs in this node's store that differ from the requested one only in letter case, with their histories
+	Lib     *wJwkLib `json:"lib,omitempty"`   // op jwk: library verdicts on the decoded bytes (parser, private key, curve point, verification method)
 	Tag     string   `json:"tag,omitempty"`
 }
 
@@ -293,6 +294,8 @@ func wExec(t *testing.T, node **wNode, op *wOp) (line string) {
 	case "node":
 		*node = wNewNode(t, *op)
 		return "node ok"
+	case "jwk":
+		return wExecJwk(op)
 	case "resolve":
 		id := did.DID{Method: wunhx(op.M), ID: wunhx(op.ID)}
 		n := *node
@@ -618,6 +621,14 @@ func wGenerate(seed int64, thorough bool) []wOp {
 		}
 		for k := 0; k < nk; k++ {
 			ops = append(ops, wOp{Op: "resolve", M: whx("key"), ID: whx(wDidKeySystematic(r)), Tag: "key-systematic", Allow: r.Intn(4) == 0})
+		}
+		// did:jwk: the decision table of the resolver itself (encoding shape x key text), no store, no node state
+		nj := 60
+		if thorough {
+			nj = 500
+		}
+		for k := 0; k < nj; k++ {
+			ops = append(ops, wJwkSystematic(r))
 		}
 		for k := 0; k < per; k++ {
 			op := wOp{Op: "resolve", Allow: r.Intn(3) == 0}
